@@ -8,6 +8,7 @@ import (
 	jp "github.com/evanphx/json-patch/v5"
 	"github.com/evanphx/json-patch/v5/xverif/ev"
 	"github.com/evanphx/json-patch/v5/xverif/gen"
+	"github.com/evanphx/json-patch/v5/xverif/laws"
 	"github.com/evanphx/json-patch/v5/xverif/ref"
 	"pgregory.net/rapid"
 )
@@ -16,48 +17,6 @@ type Case struct {
 	D  string `json:"doc"`
 	P1 string `json:"patch1"`
 	P2 string `json:"patch2"`
-}
-
-// Compat: wherever p2 holds an object, p1 holds an object or nothing.
-func Compat(p1, p2 *ref.V) bool {
-	if p2.K != ref.KObj {
-		return true
-	}
-	for i, k := range p2.Keys {
-		v2 := p2.Vals[i]
-		if v2.K != ref.KObj {
-			continue
-		}
-		v1, ok := p1.Get(k)
-		if !ok {
-			continue
-		}
-		if v1.K != ref.KObj || !Compat(v1, v2) {
-			return false
-		}
-	}
-	return true
-}
-
-// sharedNull: P1 and P2 share a member path of depth >= 1 and one of them has a null there.
-func sharedNull(p1, p2 *ref.V, depth int) bool {
-	if p1.K != ref.KObj || p2.K != ref.KObj {
-		return false
-	}
-	for i, k := range p2.Keys {
-		v1, ok := p1.Get(k)
-		if !ok {
-			continue
-		}
-		v2 := p2.Vals[i]
-		if depth >= 1 && (v1.K == ref.KNull || v2.K == ref.KNull) {
-			return true
-		}
-		if sharedNull(v1, v2, depth+1) {
-			return true
-		}
-	}
-	return false
 }
 
 func sprinkleNulls(t *rapid.T, v *ref.V, label string) {
@@ -156,11 +115,11 @@ func check(c Case) ev.Verdict {
 		}
 		return v
 	}
-	if !Compat(p1, p2) {
+	if !laws.Compat(p1, p2) {
 		return ev.Excluded("incompatible pair (P2 holds an object where P1 holds a non-object)", "incompatible")
 	}
 	v := ev.Verdict{Classes: []string{"compatible"}}
-	v.NonTrivial = sharedNull(p1, p2, 0)
+	v.NonTrivial = laws.SharedNull(p1, p2, 0)
 	if v.NonTrivial {
 		v.Classes = append(v.Classes, "shared-path-with-null")
 	}
